@@ -877,6 +877,9 @@ def explore_c13(ctx, res, replay_ops=None):
             res.violation("oracle", "C13: unregistered path %s answered %d" % (path, st), [op, "# impl: " + im])
         if a != b:
             res.violation("oracle", "C13: an unauthenticated request changed the subscriber pool", [op, "# impl: " + im])
+        if registered and st == 401 and " one=0" in im:
+            res.violation("oracle", "C13: the 401 answer is not a single problem document: something ran after the rejection and wrote to the response",
+                          [op, "# impl: " + im])
         res.sample({"op": op, "impl": im})
     res.exhaustive = True
     res.extra["service_lists"] = len(lists)
@@ -1118,14 +1121,20 @@ def explore_c03(ctx, res, replay_ops=None):
     out = core.driver_run(q) if q else []
     verdict = dict(zip(qi, out))
     start = 0            # first op of the current scenario (for replays)
-    prev = []            # record sizes after the previous operation
-    blamed = {}          # index of an oversize record -> known-finding class that explains it
+    prevs = {}           # subscriber -> record sizes after its previous operation
+    blameds = {}         # subscriber -> {index of an oversize record -> known-finding class that explains it}
+    owner = {}           # session handle -> subscriber
     for i, (op, im) in enumerate(zip(r.ops, r.impl)):
         t = op.split(" ")
         kind = t[1] if len(t) > 1 else ""
         if kind == "reset":
-            start, prev, blamed = i, [], {}
+            start, prevs, blameds, owner = i, {}, {}, {}
             continue
+        if kind == "create" and len(t) > 3:
+            owner[t[2]] = t[3]
+        sub = owner.get(t[2] if len(t) > 2 else "", "?")
+        prev = prevs.get(sub, [])
+        blamed = blameds.setdefault(sub, {})
         d = obs[i]
         if kind in ("end",) or "st" not in d:
             if im.split(" ")[0] in ("panic", "timeout"):
@@ -1140,6 +1149,12 @@ def explore_c03(ctx, res, replay_ops=None):
         if sizes:
             res.dist["max-record=%s" % ("<256" if max(sizes) < 256 else "<16k" if max(sizes) < 16384 else "<60k" if max(sizes) < 60000 else
                                           "60k..65535" if max(sizes) <= C03_LIMIT else ">65535")] += 1
+        # --- every container of every accepted request is in the subscriber's records exactly once
+        if "cont" in d:
+            rec, dis, sent = (int(x) for x in d["cont"].split(":"))
+            if not (rec == dis == sent):
+                res.violation("oracle", "C03: the subscriber's records hold %d containers (%d distinct) for %d reported in accepted requests" % (rec, dis, sent),
+                              replay + ["# impl: " + im[:200] + "…"])
         # --- the 65535-octet record limit
         for k, sz in enumerate(sizes):
             if sz <= C03_LIMIT or k in blamed:
@@ -1189,7 +1204,7 @@ def explore_c03(ctx, res, replay_ops=None):
                                   replay + ["# verdict: " + verdict[i]])
         elif kind in ("update", "fit", "release") and d.get("st") in ("200", "204"):
             res.violation("oracle", "C03: a successful %s wrote no CDR file" % kind, replay + ["# impl: " + im[:200]])
-        prev = sizes
+        prevs[sub] = sizes
     res.rule = ("offline charging sessions through the real router: one session growing by 40 (thorough 160) updates across the 127/255/65535 "
                 "header boundaries; updates of 2300..2610 containers landing below/at/above the limit followed by small updates and a release "
                 "that adds usage; updates sized at run time so that len(record)+len(usage) = 65535+d for d in -8..2 on a fresh and on a grown "
